@@ -13,6 +13,8 @@ import (
 
 	"verifharness/sim"
 
+	"github.com/cenkalti/backoff/v4"
+
 	"github.com/gebn/bmc"
 	"github.com/gebn/bmc/pkg/ipmi"
 )
@@ -25,6 +27,7 @@ type c13Req struct {
 	Prior      int    `json:"prior_ms"` // > 0: an earlier successful call on the same connection with this (longer, still live) context
 	TimeoutMs  int    `json:"timeout_ms"`
 	DeadlineMs int    `json:"deadline_ms"` // <= 0: already expired context
+	BackoffMs  int    `json:"backoff_ms"`  // > 0: a constant back-off of this length instead of the library's randomised exponential one (session-less loops)
 }
 
 type c13Res struct {
@@ -133,7 +136,12 @@ func runC13(js string) string {
 	to := time.Duration(rq.TimeoutMs) * time.Millisecond
 	fs := &faultServer{conn: uc, b: cfg, fault: rq.Fault, from: rq.From, until: rq.Until, timeout: to, rng: rand.New(rand.NewSource(1))}
 	go fs.serve()
-	c, err := bmc.DialV2(uc.LocalAddr().String(), bmc.WithTimeout(to))
+	var c *bmc.V2SessionlessTransport
+	if rq.BackoffMs > 0 {
+		c, err = bmc.DialV2ForVerif(uc.LocalAddr().String(), to, backoff.NewConstantBackOff(time.Duration(rq.BackoffMs)*time.Millisecond))
+	} else {
+		c, err = bmc.DialV2(uc.LocalAddr().String(), bmc.WithTimeout(to))
+	}
 	if err != nil {
 		res.Setup = err.Error()
 		b, _ := json.Marshal(res)
